@@ -60,6 +60,10 @@ METAS = [
     dict(name="m6", version="1.0", target=("TD2", None, []), type=("tdm", None, [])),
     dict(name="m7", version="1.0", target=("x.y_1", [], []), type=("other", [], [("k", U("-", N("1.5")))])),
     dict(name="m8", version="1.0", target=("g", [], [("a", L(N("1"), N("2"))), ("b", L(N("3"))), ("c", L(S("x"), BOOL(False)))]), type=("t", [], [("d", L(N("0.5"))), ("e", L(N("1"), N("2")))])),
+    # the remaining cells of the {absent, name only, with options} x {absent, name only, with options} grid for target x type
+    dict(name="m9", version="1.0", target=("g", [], [("shots", N("10")), ("s", S("a"))]), type=("sampling", None, [])),
+    dict(name="m10", version="1.0", target=("g", None, []), type=("t", [], [("k", N("2"))])),
+    dict(name="m11", version="1.0", type=("plain", None, [])),
 ]
 
 
